@@ -38,7 +38,8 @@ def build_cases(tier, seed):
             ctrl = {"stack": ["Dispatcher", "ChargingFleetManager", {"hostile": {"p": 0.25}}, {"hostile": {"p": 0.25}}, {"hostile": {"p": 0.25, "per_vehicle": 2}}]}
         else:
             ctrl = hostile_stack(p=0.5, builtin=False)
-        cases.append(trace_case("C09", i, s, prof, ctrl, steps, ["C09"]))
+        # every third run a co-simulation client hands generators back between calls (all of them, or one that is not the last)
+        cases.append(trace_case("C09", i, s, prof, ctrl, steps, ["C09"], opts=({"cosim_noops": 4 + i % 3} if i % 3 == 1 else {})))
     cases += systematic_cases("C09", tier, seed)
     if tier == "thorough":
         for w in ("denver_downtown/denver_demo.yaml", "denver_downtown/denver_demo_fleets.yaml"):
